@@ -161,6 +161,32 @@ theorem good_emptySet {c : Cfg} {s s' : State} (t : Ty) (h : simple c s (.emptyS
     exact good_pushOnly _ (by simp [Val.consistent, nodupB]) (by simp [ticketSum]) (by simp [noZero])
   · cases h
 
+theorem good_lambda {c : Cfg} {s s' : State} (a b : Ty) (body : List Instr)
+    (h : simple c s (.lambda a b body) = some (.ok s')) : Good s s' := by
+  simp only [simple, Option.some.injEq, pure, Except.pure, Except.ok.injEq] at h
+  subst h
+  exact good_pushOnly _ (by simp [Val.consistent]) (by simp [ticketSum]) (by simp [noZero])
+
+/-- APPLY: the captured value ends up inside code; whatever tickets it held are gone for good -/
+theorem good_apply {c : Cfg} {s s' : State} (h : simple c s .apply = some (.ok s')) : Good s s' := by
+  simp only [simple, Option.some.injEq] at h
+  cases hp : s.pop2 with
+  | error e => simp [hp, bind, Except.bind] at h
+  | ok x =>
+    obtain ⟨l, lam, s1⟩ := x
+    simp only [hp, bind, Except.bind] at h
+    split at h
+    · rename_i lt rt b body
+      split at h
+      · cases h
+      · simp only [pure, Except.pure, Except.ok.injEq] at h
+        subst h
+        refine Good.popPush [l, .lam (.pair lt rt) b body] [.lam rt b _] [] true (pop2_spec hp) (push_perm _ _) rfl
+          (by simp [push_typed]) rfl ?_
+        intro _ _
+        exact ⟨LC_cons.mpr ⟨rfl, LC_nil⟩, fun k => by simp [LS_cons, LS_nil, ticketSum], fun _ => LN_cons.mpr ⟨rfl, LN_nil⟩⟩
+    · cases h
+
 mutual
   theorem pushable_noZero (bad : List String) (hb : bad.contains "ticket" = true) :
       ∀ v : Val, v.consistent = true → v.typeOf.all bad = true → noZero v = true
@@ -197,6 +223,7 @@ mutual
       simp only [Val.typeOf, Ty.all, Bool.and_eq_true] at ha
       simp [noZero, pushable_noZero bad hb v hc ha.2.2]
     | .set _ _, _, _ => by simp [noZero]
+    | .lam _ _ _, _, _ => by simp [noZero]
   theorem pushable_noZeroList (bad : List String) (hb : bad.contains "ticket" = true) :
       ∀ (t : Ty) (xs : List Val), Val.consistentList t xs = true → t.all bad = true → noZeroList xs = true
     | _, [], _, _ => rfl
